@@ -79,6 +79,7 @@ fixed("R1c", "C01", "5fd18a0", "a row carrying the stale delete mark of a rolled
 fixed("D26", "C04", "5ffff49", "a session begun while the last committed transaction id was still 0 (before or right after the first autocommit statement of a new database) had no upper bound on its snapshot and saw everything that committed later", "O-res", "findings/D26-session-begun-before-any-commit-sees-later-commits.json")
 fixed("T2", "C14", "2f03ae5", "SELECT COUNT(*) in one thread and INSERTs into the same table in others: the scan re-took a read latch it already held while a writer waited for it, and parking_lot queues new readers behind a waiting writer - the engine stopped for good (about every third run of a real-thread stress; invisible to the baton scheduler until it gave the locks that policy)", "O-deadlock", "findings/T2-count-scan-and-inserts-on-one-table-deadlock-on-a-page-latch.json")
 fixed("T3", "C14", "7e7b5c5", "a scan that started while another thread's INSERT split the root leaf failed with 'Btree iterator received an invalid position to iterate over' (the first leaf was looked up, released, and latched again by the iterator)", "O-res", "findings/T3-scan-started-while-the-root-leaf-splits-fails-invalid-iterator-position.json")
+fixed("S2", "C02", "3725cc4", "a page freed by a rebalance (or by VACUUM, DROP, an overflow chain) was written to the data file at once while the tree on disk still pointed at it: VACUUM, an INSERT whose rebalancing frees a page, crash before the next checkpoint - open failed with 'Buffer overflow ... Free space: 0'", "O-open", "findings/S2-page-freed-by-a-rebalance-is-written-through-then-crash-open-fails.json")
 
 # ---- open findings: plans and indexes (C06) ----
 fixed("J1", "C06", "0093459", "an equi-join lost matching rows when the left input held a NULL in the join column (merge join compared a NULL key as greater than every right key and ran the right input dry)", "O-plan", "findings/J1-equi-join-with-null-join-key-loses-matches.json")
@@ -89,7 +90,7 @@ for prop in ("C06",):
 
 # ---- open findings: storage shapes (C12 and everything that stores rows) ----
 open_("D31b", "C12", "rows whose payload needs overflow pages break the tree within a handful of inserts (panic at storage/core/buffer.rs:570, 'Buffer overflow ... on a btreepage')", "O-res", "rows_with_overflow_chains", "findings/D31b-rows-with-overflow-chains-break-the-tree-within-a-few-inserts.json")
-open_("D17b", "C15", "ALTER TABLE ... DROP COLUMN of the last column can leave the table unreadable (panic at storage/tuple.rs:297)", "O-state", "alter_drop_column", "findings/D17b-alter-drop-last-column-leaves-table-unreadable.json")
+fixed("D17b", "C15", "e1d3627", "ALTER TABLE ... DROP COLUMN of the last column can leave the table unreadable (panic at storage/tuple.rs:297) - another symptom of V2 (the delta walk read a header from alignment padding); the reproducer runs clean since that repair", "O-state", "findings/D17b-alter-drop-last-column-leaves-table-unreadable.json")
 open_("X1b", "C15", "CREATE UNIQUE INDEX in autocommit while an older session is open: that session can no longer use the table ('Table not found N')", "O-res", "create_index_inside_session", "findings/X1b-create-index-while-older-session-open-hides-table-from-it.json")
 fixed("X3", "C15", "b57c28d", "a UNIQUE index over columns of different types listed out of table order panicked (types/core.rs:333) on the first duplicate probe", "O-res", "findings/X3-multi-column-index-out-of-table-order-panics-on-duplicate.json")
 
@@ -114,7 +115,7 @@ open_("F4", "C01", "a checkpoint taken while a transaction is open writes its un
 fixed("F5", "C02", "d9227de", "a transaction that inserted and then deleted a row and is open (or failed) at the crash left that row behind after recovery", "O-atomicity", "findings/F5-own-insert-then-delete-open-at-crash.json")
 fixed("D6c", "C01", "ea2713a", "DROP TABLE wrote freed pages to the file before the transaction commits; a crash then made open fail while redoing the table's logged rows", "O-open", "findings/D6c-drop-table-writes-pages-before-commit.json")
 open_("F7", "C01", "recovery of rows with overflow chains (several KB of text) leaves the table unreadable (panic at storage/core/buffer.rs:570)", "O-open", "rows_with_overflow_chains", "findings/F7-recovery-of-rows-with-overflow-chains.json")
-open_("D6d", "C01", "deleting a row with an overflow chain writes the freed pages to the file before commit; after a crash the acknowledged row comes back corrupted", "O-durability", "rows_with_overflow_chains", "findings/D6d-delete-of-overflow-row-writes-pages-before-commit.json")
+fixed("D6d", "C01", "3725cc4", "deleting a row with an overflow chain writes the freed pages to the file before commit; after a crash the acknowledged row comes back corrupted (freed pages were written through, see S2)", "O-durability", "findings/D6d-delete-of-overflow-row-writes-pages-before-commit.json")
 open_("S1", "C01", "once cache eviction has written a dirty page back before the next checkpoint (steal), a crash makes open fail or lose acknowledged rows: logical redo runs over pages that already hold the changes", "O-open", "crash_after_stolen_page", "findings/S1-crash-after-an-evicted-dirty-page-was-written-back.json")
 open_("F6", "C08", "recovery truncates the log before the pages it redid are durable: a crash right after a recovery loses everything it recovered", "O-repeat", "crash_after_recovery_truncated_log", "findings/F6-recovery-truncates-log-before-redone-pages-are-durable.json")
 
